@@ -224,6 +224,8 @@ def rule_rollback(ctx, rule='R04.7'):
 
 
 def run(ctx):
+    from . import edges
+    edges.rule_cached_count_identity(ctx, 'R10.13')  # JANUS does not write a stale integer state over merged particles
     from . import c01 as _c01
     _c01.rule_central_body_sums(ctx)     # R01.10: momentum balance of the central body uses completed sums
     from . import c01
